@@ -100,11 +100,28 @@ structure Meta where
   ftype : String
   deriving DecidableEq, Repr, Inhabited
 
-/-- the uninterpreted parts of the world -/
+/-- Which of the three repairs the tree under test contains (`false` = the pinned upstream behaviour).
+    The driver PROBES the real handlers and tells the oracle; nothing here is a hand-set constant.
+    * `fixAlias`   (F16a): digests are compared on one spelling (`canonicalDigest`) in `Layer.Remove` and
+                   `deleteUnusedLayers`, and `NewLayerFromLayer` records the `sha256:` spelling;
+    * `fixResolve` (F16b): `getExistingName` = exact name, else whole-name EqualFold match, else first
+                   fold-equal part, over the SORTED list of existing names;
+    * `fixReturn`  (N1):   `CreateHandler` returns after the `parseFromModel` error. -/
+structure Variant where
+  fixAlias : Bool
+  fixResolve : Bool
+  fixReturn : Bool
+  deriving DecidableEq, Repr, Inhabited
+
+def Variant.pinned : Variant := ⟨false, false, false⟩
+def Variant.repaired : Variant := ⟨true, true, true⟩
+
+/-- the uninterpreted parts of the world (+ the variant of the code) -/
 structure Env where
   hash : Bytes → String
   /-- `some` iff the content is a GGUF file the decoder accepts -/
   gguf : Bytes → Option Meta
+  v : Variant
 
 /-! ## reading the store -/
 
@@ -143,13 +160,22 @@ def Store.hasCorrupt (st : Store) : Bool :=
 
 /-! ## primitive effects -/
 
+/-- the "is something using this layer" test of `Layer.Remove` / `deleteUnusedLayers`:
+    pinned = comparison of digest STRINGS, repaired (F16a) = comparison on one spelling, i.e. of blob keys -/
+def Env.inUse (env : Env) (st : Store) (d : Digest) : Bool :=
+  if env.v.fixAlias then st.keyReferenced d.key else st.referenced d
+
+/-- the digest `NewLayerFromLayer` records: as given (pinned) or `canonicalDigest` of it (F16a repaired) -/
+def Env.recorded (env : Env) (d : Digest) : Digest :=
+  if env.v.fixAlias then ⟨.colon, d.hex⟩ else d
+
 /-- `Layer.Remove` -/
-def layerRemove (st : Store) (d : Digest) : Store :=
-  if st.referenced d then st else { st with blobs := adel st.blobs d.key }
+def layerRemove (env : Env) (st : Store) (d : Digest) : Store :=
+  if env.inUse st d then st else { st with blobs := adel st.blobs d.key }
 
 /-- `Manifest.RemoveLayers` / the calls made by `removeLayer` in create.go, in order -/
-def removeLayers (st : Store) (ls : List Layer) : Store :=
-  ls.foldl (fun s l => layerRemove s l.digest) st
+def removeLayers (env : Env) (st : Store) (ls : List Layer) : Store :=
+  ls.foldl (fun s l => layerRemove env s l.digest) st
 
 /-- the file effect of `NewLayer`: written only if no file of that name exists -/
 def putBlob (env : Env) (st : Store) (c : Bytes) : Store :=
@@ -184,6 +210,36 @@ def getExistingName (ord : List Name) (n : Name) : Name := ord.foldl resolve1 n
 
 /-- The set of results of `getExistingName` over all iteration orders of `es`, computed by choosing which
     element comes LAST among those that still matter (at most four levels deep). -/
+def Name.equalFold (a b : Name) : Bool :=
+  foldEq a.host b.host && foldEq a.ns b.ns && foldEq a.model b.model && foldEq a.tag b.tag
+
+/-- `Name.String()` of a fully qualified name -/
+def Name.str (n : Name) : String := n.host ++ "/" ++ n.ns ++ "/" ++ n.model ++ ":" ++ n.tag
+
+def insertName (x : Name) : List Name → List Name
+  | [] => [x]
+  | y :: ys => if x.str < y.str then x :: y :: ys else y :: insertName x ys
+
+/-- `slices.SortFunc(names, strings.Compare(a.String(), b.String()))` -/
+def sortNames (l : List Name) : List Name := l.foldr insertName []
+
+/-- the FIRST fold-equal part in the list (the loop with `set` assigned) -/
+def firstPart (f : Name → String) (es : List Name) (x : String) : String :=
+  match es.find? (fun e => foldEq (f e) x) with
+  | some e => f e
+  | none => x
+
+/-- repaired `getExistingName` (F16b): exact name; else an existing name differing only by case; else
+    per-part canonicalisation — all over the sorted list, so the map order plays no role -/
+def getExistingNameFixed (es : List Name) (n : Name) : Name :=
+  if es.contains n then n else
+  let s := sortNames es
+  match s.find? (fun e => e.equalFold n) with
+  | some e => e
+  | none =>
+    { host := firstPart (·.host) s n.host, ns := firstPart (·.ns) s n.ns
+      model := firstPart (·.model) s n.model, tag := firstPart (·.tag) s n.tag }
+
 structure OpenParts where
   h : Bool
   n : Bool
@@ -308,7 +364,7 @@ def fromLayers (env : Env) (st : Store) : List Layer → Option (List (Layer × 
     match st.blob l.digest.key with
     | none => none
     | some c =>
-      let l' : Layer := ⟨l.media, l.digest, c.length⟩
+      let l' : Layer := ⟨l.media, env.recorded l.digest, c.length⟩
       if l.media = .model ∨ l.media = .projector ∨ l.media = .adapter then
         match env.gguf c with
         | none => none
@@ -327,12 +383,12 @@ def fileLayers (env : Env) (st : Store) : List Digest → Except String (List (L
       | some mt =>
         match fileLayers env st ds with
         | .error e => .error e
-        | .ok r => .ok ((⟨.model, d, c.length⟩, some mt) :: r)
+        | .ok r => .ok ((⟨.model, env.recorded d, c.length⟩, some mt) :: r)
 
 /-- `removeLayer(layers, mediatype)` followed by `NewLayer` + append -/
 def replaceLayer (env : Env) (st : Store) (layers : List Layer) (media : Media) (c : Bytes) :
     Store × List Layer :=
-  let st1 := removeLayers st (layers.filter (fun l => l.media = media))
+  let st1 := removeLayers env st (layers.filter (fun l => l.media = media))
   let (st2, l) := newLayer env st1 c media
   (st2, layers.filter (fun l => l.media ≠ media) ++ [l])
 
@@ -344,7 +400,7 @@ def stepTemplate (env : Env) (st : Store) (layers : List Layer) :
     if ok then
       let (st', ls) := replaceLayer env st layers .template t
       (st', some ls)
-    else (removeLayers st (layers.filter (fun l => l.media = .template)), none)
+    else (removeLayers env st (layers.filter (fun l => l.media = .template)), none)
 
 def stepSystem (env : Env) (st : Store) (layers : List Layer) : Option Bytes → Store × List Layer
   | none => (st, layers)
@@ -395,14 +451,16 @@ def baseLayers (env : Env) (st : Store) (r : CreateReq) (frev : Bool) :
     Option (List (Layer × Option Meta)) × List String :=
   match r.src with
   | some f =>
-    -- an error of parseFromModel is reported and the handler CONTINUES with no base layers
-    -- (a missing source manifest triggers PullModel, modelled as failing without effect)
+    -- pinned: an error of parseFromModel is reported and the handler CONTINUES with no base layers;
+    -- repaired (N1): it returns.  (A missing source manifest triggers PullModel, modelled as failing
+    -- without effect.)
+    let onErr : Option (List (Layer × Option Meta)) := if env.v.fixReturn then none else some []
     match st.readableAt f with
     | some m =>
       match fromLayers env st m.layers with
       | some b => (some b, [])
-      | none => (some [], ["e500"])
-    | none => (some [], ["e500"])
+      | none => (onErr, ["e500"])
+    | none => (onErr, ["e500"])
   | none =>
     if r.files.isEmpty then (none, ["e400"]) else
     match fileLayers env st (if frev then r.files.reverse else r.files) with
@@ -419,17 +477,17 @@ def createAt (env : Env) (st : Store) (r : CreateReq) (name : Name) (frev : Bool
     | (st1, some err) => (st1, ev ++ [err])
     | (st1, none) =>
       match old with
-      | some m => (removeLayers st1 m.all, ev ++ ["s"])
+      | some m => (removeLayers env st1 m.all, ev ++ ["s"])
       | none => (st1, ev ++ ["s"])
 
 /-! ## the other operations -/
 
 /-- `DeleteHandler` after name resolution -/
-def deleteAt (st : Store) (t : Name) : Store × List String :=
+def deleteAt (env : Env) (st : Store) (t : Name) : Store × List String :=
   match st.man t with
   | none => (st, ["h404"])
   | some .corrupt => (st, ["h500"])
-  | some (.readable m) => (removeLayers (delManifest st t) m.all, ["h200"])
+  | some (.readable m) => (removeLayers env (delManifest st t) m.all, ["h200"])
 
 /-- `CopyHandler` / `CopyModel` after name resolution: the manifest FILE is copied byte for byte -/
 def copyAt (st : Store) (s d : Name) : Store × List String :=
@@ -448,13 +506,13 @@ def upload (env : Env) (st : Store) (d : Digest) (c : Bytes) : Store × List Str
 
 /-- `PruneLayers`: every blob file becomes the STRING `sha256:<hex>`; those no readable manifest mentions
     (string comparison) are removed -/
-def pruneLayers (st : Store) : Store :=
-  { st with blobs := st.blobs.filter (fun p => st.referenced ⟨.colon, p.1⟩) }
+def pruneLayers (env : Env) (st : Store) : Store :=
+  { st with blobs := st.blobs.filter (fun p => env.inUse st ⟨.colon, p.1⟩) }
 
 /-- startup sequence of `Serve` (fixBlobs is the identity on blob keys; PruneDirectory only removes
     empty directories): skipped entirely when any manifest fails to parse -/
-def pruneStartup (st : Store) : Store × List String :=
-  if st.hasCorrupt then (st, ["skip"]) else (pruneLayers st, ["ok"])
+def pruneStartup (env : Env) (st : Store) : Store × List String :=
+  if st.hasCorrupt then (st, ["skip"]) else (pruneLayers env st, ["ok"])
 
 /-- `ListHandler`: readable manifests whose config blob opens -/
 def listed (st : Store) : List Name :=
@@ -480,6 +538,10 @@ def showAt (env : Env) (st : Store) (t : Name) : String :=
 
 /-! ## operations and the step function -/
 
+/-- the same manifest with its model-layer digests in the dash spelling -/
+def Manifest.dashed (m : Manifest) : Manifest :=
+  { m with layers := m.layers.map (fun l => if l.media = .model then { l with digest := ⟨.dash, l.digest.hex⟩ } else l) }
+
 inductive Op
   | upload (d : Digest) (c : Bytes)
   | create (r : CreateReq)
@@ -491,14 +553,21 @@ inductive Op
   | plant (src dst : Name)
   /-- NOT an API operation: a manifest file is damaged (torn write) -/
   | corrupt (n : Name)
+  /-- NOT an API operation: the manifest spells its model-layer digests `sha256-<hex>` (manifests written by
+      other tools / older versions; through the API only the pinned `create` with such a `files` value) -/
+  | dashify (n : Name)
+
+/-- `getExistingName` of the tree under test -/
+def resolveName (env : Env) (st : Store) (ord : List Name) (n : Name) : Name :=
+  if env.v.fixResolve then getExistingNameFixed st.readableNames n else getExistingName ord n
 
 def step (env : Env) (st : Store) (op : Op) (ch : Choice) : Store × List String :=
   match op with
   | .upload d c => upload env st d c
-  | .create r => createAt env st r (getExistingName ch.ord1 r.name) ch.frev
-  | .copy s d => copyAt st (getExistingName ch.ord1 s) (getExistingName ch.ord2 d)
-  | .delete n => deleteAt st (getExistingName ch.ord1 n)
-  | .prune => pruneStartup st
+  | .create r => createAt env st r (resolveName env st ch.ord1 r.name) ch.frev
+  | .copy s d => copyAt st (resolveName env st ch.ord1 s) (resolveName env st ch.ord2 d)
+  | .delete n => deleteAt env st (resolveName env st ch.ord1 n)
+  | .prune => pruneStartup env st
   | .plant s d =>
     match st.man s with
     | some f => (setManifest st d f, ["ok"])
@@ -507,5 +576,9 @@ def step (env : Env) (st : Store) (op : Op) (ch : Choice) : Store × List String
     match st.man n with
     | some _ => (setManifest st n .corrupt, ["ok"])
     | none => (st, ["none"])
+  | .dashify n =>
+    match st.man n with
+    | some (.readable m) => (setManifest st n (.readable m.dashed), ["ok"])
+    | _ => (st, ["none"])
 
 end OllamaVerif.Store
